@@ -49,7 +49,11 @@ var (
 	c10ClientVals = []uint64{0, 1, 65535, 65536, 65537, 1000000000, 1 << 63, math.MaxUint64}
 	c10ServerVals = []uint64{0, 65536, 65537, 1000000000, math.MaxUint64}
 	c10CCs        = []string{"bbr:conservative", "bbr:standard", "bbr:aggressive", "reno"}
-	c10Hdrs       = []string{"<missing>", "", "0", "auto", "Auto", " 5", "abc", "-1", "1e6", "65536", "100000", "18446744073709551615", "18446744073709551616"}
+	// every spelling is judged by strconv.ParseUint(s, 10, 64), which is what "a decimal number" means:
+	// leading zeros are decimal, prefixes and underscores are not numbers (spellings added after the
+	// independently seeded change C10-8: the header was parsed with base 0)
+	c10Hdrs = []string{"<missing>", "", "0", "auto", "Auto", " 5", "abc", "-1", "1e6", "65536", "100000", "18446744073709551615", "18446744073709551616",
+		"00065536", "0200000", "0900000", "0x7A120", "0b11", "0o17", "1_000_000", "+5"}
 )
 
 type c10Factory struct{ pcs []*vnet.PacketConn }
